@@ -13,6 +13,10 @@ IMPLEMENTED = {
             'deterministic simulation: seeded coroutine scheduler over the real generated embedding start-up C code with a stubbed CPython; fault injection (failing/raising init code, failed import/module init/compile, recursive and cross-library calls, stalls); invariants checked at event time; exact deadlock detection',
             'Seeded search over schedules and init-failure sequences of the real _embedding.h start-up path for two libraries and up to 3 threads; every run replayable from its case line and recorded decisions. Sampling, not proof.',
             'CPython is a stub (GIL/initialization model); sequentially consistent interleavings with switches only at CAS/barrier/mutex/assert/C-API seams; memory-ordering bugs and switches between adjacent plain accesses are out of reach.'),
+    'C23': ('F', 'fault_enumeration', 'DESIGN.md 3.5',
+            'deterministic simulation of the file system under the real write path: exhaustive crash-point enumeration (process death before every I/O step, torn variant of every write, short writes) per sampled case, recovery run after each crash; plus a cross-interpreter determinism sweep (hash seeds, histories)',
+            'For every sampled (cdef, route, old target state, buffering) case, every I/O step of the real regeneration is enumerated as a crash point and atomicity, recovery and idempotence are checked; cases are sampled, crash points per case are exhaustive. Determinism is checked by digest equality across fresh interpreters.',
+            'Crash = process death with the OS file view preserved (no power loss / fsync modelling); rename atomic; SimFS models open/read/write/close/rename/unlink/makedirs as used by cffi.recompiler; the C compiler is never run.'),
 }
 
 PENDING = {
